@@ -43,6 +43,26 @@ tree after the `name` callback, handed on by `toR`).  Theorems quantify over ALL
   `bench_text_between_statements`, `bench_text_trailing_comment`; `bench_text_to_netlist`, `verilog_text_to_netlist` — the circuit model (1) builds from model
   (2)'s reading of the printed text is the circuit of the statement list, which puts all theorems of (1) behind the text.
   NOT a theorem: the converse (every accepted text is a layout of a token stream) and anything about rejected texts.
+  **`parsed_sem` (connectivity ⇒ function)** — sections `ParsedSem`, `ParsedSemVerilog` at the end of this file.  `Circ.toNet`
+  (Model/CircNet.lean) is the canonical dump (`KV.Net`, the object of every simulation theorem of C01/C02/…) of the circuit the
+  parser model builds; `benchNet stmts` / `verilogNet cfg tl ports stmts` are the dumps of `bench stmts` / `module …`.
+  Statement-level denotations, written without reference to the circuit: `BenchModel` (Model/BenchSem.lean), `VModel`
+  (Model/VerilogSem.lean) — an environment `σ : signal name → α` over ANY value domain / op algebra (`prim`, `z`, `neg` as in
+  `lineEq`) that satisfies every gate statement / instance, gives ports and state elements their assigned values.
+  `bench_net_wf`, `verilog_net_wf` (the dump of EVERY model circuit is `Net.wfB`); `bench_net_ports`, `bench_snodes`,
+  `verilog_snodes` (ports and `s_nodes` = statement-level lists); `bench_parsed_sem`, `verilog_parsed_sem` (the labellings of the
+  net that satisfy every gate equation `lineEq` of the specification evaluator correspond ONE-TO-ONE to the models `σ`; line `i`
+  carries `σ` of the signal `benchSigs[i]` / `vSigs[i]`; relational — no acyclicity hypothesis); `bench_captured`,
+  `verilog_captured` (what is captured at an output port `o` is `σ o`, at a flip-flop `q = DFF(d)` / the pin-0 signal `σ d`);
+  `bench_checker_sound`, `verilog_checker_sound`; `bench_end_to_end`, `bench_end_to_end4/8`, `verilog_end_to_end(8)` (composition
+  with C01/C02: for every topological order that schedules every line there is exactly ONE model and the `LogicSim` result of the
+  `SimOps` model is `σ` on every line and at every capture); `bench_text_to_net`, `verilog_text_to_net` (from TEXT, any layout).
+  Bench: ALL statement lists that build (`benchOKB`: gate names pairwise different, no kind `__fork__`).  Verilog: the fragment
+  `verilogOKB` — declarations, named single-bit pins reading driven signals, both `branchforks` settings, UNRESOLVED circuit (an
+  instance of kind `K` means what the simulator's kind table makes of `K`; for a library of primitives this is the function of
+  the netlist; library substitution is C10 `resolve_sem`); NOT covered: assigns, constants on pins, multi-bit connections, 1-bit
+  bus by base name, floating inputs / undriven outputs.  Hypotheses of the end-to-end theorems `orderOKB` / `forksOKB` /
+  `linesDrivenB` are decidable conditions on (net, order), not derived from the description.
 * **Correspondence** (harness/c11.py, differential, not proof): (1) == real `verilog.parse` / `bench.parse` on generated
   texts: node list, line list with all pin numbers, `io_nodes`, connectivity table; both raise or both build on inputs outside
   the subset.  Which variant of pass 1.5 / pass 2 (`Cfg.assignFix`, `Cfg.onebitDecl`) the code under test has is probed.
@@ -53,9 +73,17 @@ tree after the `name` callback, handed on by `toR`).  Theorems quantify over ALL
   real parsed circuit (or both raise).  What remains trusted at the text level: that lark implements the grammar as the hand
   parser reads it — no longer unexamined, but checked on these texts only.  Outside the modelled domain (answered `unsup`,
   counted, not compared): a name with an apostrophe that is not a sized constant (Python's `int()` accepts more spellings).
+  (3) `parsed_sem` tie (`parsed_sem_bench`, `parsed_sem_verilog`): `benchNet` / `verilogNet` (driver `netof`) == `dump_net` of the
+  REAL parsed circuit character by character (every generated case that builds, also outside the Verilog fragment); `benchOKB`,
+  `benchClosedB`, `verilogOKB` and the hypotheses of the end-to-end theorems (real topological order) evaluated by the driver on
+  every case (coverage tags `parsed-sem:*`); for covered cases the model's `σ` (driver `benchsem` / `verilogsem`: evaluator +
+  acceptance check `benchModelB` / `vModelB`, sound by theorem) observed at outputs and state elements == the GENERATOR's own
+  evaluation of the netlist it rendered (bench; Verilog over the library of primitives `PRIM`) and == the real `LogicSim` on the
+  real unresolved circuit (Verilog, every library), on sampled assignments.
 * **Oracle** (harness/c11.py): truth table of the parsed + resolved circuit under the real `LogicSim(m=2)` against the
   generator's own evaluation of the netlist it rendered; port order; Verilog vs bench.  This decides violations.
-  The step from "right connectivity" to "right Boolean function" (DESIGN `parsed_sem`) is oracle-only. -/
+  The step from "right connectivity" to "right Boolean function" (DESIGN `parsed_sem`) is now a theorem for bench and for the
+  Verilog fragment above; it stays oracle-only for Verilog modules outside the fragment and for `resolve_tlib_cells` on them. -/
 namespace KV.C11
 open KV.Netlist
 
